@@ -75,6 +75,7 @@ def printers_part(ctx):
         return
     sd = ctx.rng.below(10**6)
     lines = [("printer %s %d %d" % (fam, i, sd), n) for fam in ("A", "B", "C") for i, n in enumerate(pr[fam])]
+    lines += [("printer S %d %d" % (i, sd), n) for i, (n, ty) in enumerate(pr["S"])]
     outs, err = core.run_lines(exe, [l[0] for l in lines], shards=4, env={"VERIF_STDERR": "1"})   # keep the sanitizer report: it names the fault
     other = []
     for (line, name), o in zip(lines, outs):
@@ -82,6 +83,8 @@ def printers_part(ctx):
         ctx.count("printer")
         if o.startswith("CLEAN"):
             ctx.cell("printer:%s:%s" % (line.split()[1], "prints" if "printed=0" not in o else "silent"))
+        elif o.startswith("SKIP"):
+            ctx.cov.setdefault("printers_not_exercised", []).append(name)
         elif o.startswith("LEAK") or o.startswith("FAULT asan:heap-buffer-overflow") or o.startswith("FAULT asan:stack-buffer-overflow") or o.startswith("FAULT asan:global-buffer-overflow"):
             ctx.violation("printer:" + name, "%s() prints memory beyond the (buffer, length) it was given when an inner length field claims more than the buffer holds: `%s` -> %s" % (
                 name, line, o[:200]), {"kind": "failing-input", "op": line, "impl": o, "expected": "CLEAN (only bytes of the object itself are printed)", "variant": "asan",
@@ -91,7 +94,27 @@ def printers_part(ctx):
     ctx.cov["printer_crashes_not_overreads"] = other
     if other:
         ctx.notes.append("printers that crash without over-reading (memory-safety findings of C06, not C19): " + "; ".join(other))
-    ctx.notes.append("printers: %d public (buffer, length) printers (%s) x ~850 inputs each in %.1fs" % (len(lines), {k: len(v) for k, v in pr.items()}, time.time() - t0))
+    ctx.notes.append("printers: %d public printers (%s; A/B/C x ~850 inputs each, S on a valid object) in %.1fs" % (len(lines), {k: len(v) for k, v in pr.items()}, time.time() - t0))
+    # ---- wave 5: format-string / length audit of every print / trace / format routine (static and struct-taking ones included)
+    arows, ast = printers.audit(core.REPO, core.BUILD, "asan")
+    printers.emit_audit(arows, os.path.join(core.COQ, "Gen", "PrintAuditTable.v"))
+    res = tablecheck.run("C19", "PrintAuditTable", "print_calls", "(fun c => (print_call_key c ++ \"@\" ++ pc_detail c)%string)", "print_call_ok", "print_calls_audited",
+                         "forall c, In c print_calls -> pc_fmt_literal c = true /\\ pc_nargs_ok c = true /\\ pc_str_ok c = true /\\ pc_len c <> LenExceeds", "print_audit_sound")
+    ctx.cov["obligations"] += 1
+    ctx.cov["theorems"].append({"name": "print_calls_audited (instance over coq/Gen/PrintAuditTable.v, %s rows, %d print routines)" % (res["rows"], len(ast["print_functions"])),
+                                "assumptions": [] if res["closed"] else None})
+    ctx.cov["evaluations"] += len(arows)
+    for r_ in arows:
+        ctx.cell("audit:%s:%s" % (r_["callee"], r_["len"]))
+    if res["proved"] and res["closed"] and res["failing"] == []:
+        ctx.cov["discharged"] += 1
+    elif res["failing"] is None:
+        ctx.violation("table:print-audit-check", "the table check file did not compile: " + res["log"][-600:], {"kind": "proof", "theorem_or_file": "print_calls_audited", "detail": res["log"][-2000:]}, False)
+    else:
+        for r_ in arows:
+            if not printers.audit_ok(r_):
+                ctx.violation("audit:%s:%s:%s" % (r_["file"], r_["fn"], r_["callee"]), "%s:%d %s() calls %s with a format / length that does not pass the audit: %s" % (
+                    r_["file"], r_["line"], r_["fn"], r_["callee"], r_["detail"]), {"kind": "table-row", "theorem_or_file": "print_calls_audited over coq/Gen/PrintAuditTable.v", "row": r_}, False)
 
 
 def cases(ctx):
